@@ -127,21 +127,31 @@ PROPS = {
     },
     "C15": {
         "clause": "NARROW: totality — layer and layered_operations return for every well-formed diagram (every "
-                  "panic path infeasible, loop included); result shapes; dependency direction by provenance",
+                  "panic path infeasible, loop included); result shapes; dependency direction by provenance; one "
+                  "iteration of kahn's loop is the documented step (mark the frontier visited, set its order to the depth, "
+                  "subtract the frontier's contribution from the indegrees persistently, next frontier = reachable "
+                  "unvisited nodes of indegree 0, depth + 1), in either marking discipline; `converse` meets its doc "
+                  "comment (callee-level spec); sparse_bincount counts are consumed only together with their keys",
         "entries": ["strict::layer::"],
         "anchors": ["strict::layer::layer", "strict::layer::layered_operations"],
         "rules": [], "level": "proof",
     },
     "C16": {
-        "clause": "NARROW: eval refuses exactly when layer reports an unvisited operation, otherwise returns "
-                  "(no panic) under the documented apply contract; result length |f.t|",
+        "clause": "NARROW: eval refuses exactly when layer reports an unvisited operation (a refusal on a path that "
+                  "did not consult the layering is rejected), otherwise returns (no panic) under the documented apply "
+                  "contract; result length |f.t|; at the call of `apply` the operation labels and the input segments are "
+                  "re-indexings along ONE selection; a scattered memory is read only where it was written; the kahn "
+                  "step of C15",
         "entries": ["strict::eval::"],
         "anchors": ["strict::eval::eval", "strict::layer::layer"],
         "rules": [], "level": "proof",
     },
     "C17": {
         "clause": "NARROW: totality of is_acyclic, is_monogamous, in_degree, out_degree for every well-formed "
-                  "diagram, debug = release (array subtraction is an obligation); only documented requires node < |w|",
+                  "diagram, debug = release (array subtraction is an obligation); only documented requires node < |w|; "
+                  "is_monogamous / is_discrete / is_injective answer a formula equivalent to their definition on every "
+                  "path (boolean spec; not decided when the answer is an uninterpreted boolean); in_degree / out_degree "
+                  "depend on exactly the incidence they name (DEP); the kahn step of C15 behind is_acyclic",
         "entries": [f"{S_OH}::<K, O, A>::is_acyclic", f"{S_OH}::<K, O, A>::is_monogamous",
                     "acyclic::<impl strict::hypergraph::object::Hypergraph<K, O, A>>::is_acyclic",
                     f"{S_H}::<K, O, A>::in_degree", f"{S_H}::<K, O, A>::out_degree"],
@@ -150,8 +160,11 @@ PROPS = {
         "rules": [], "level": "proof",
     },
     "C18": {
-        "clause": "NARROW: validation requires all four naturality comparisons and names the failed one; "
-                  "is_convex_subgraph returns (no panic) for every validated arrow, loop included",
+        "clause": "NARROW: validation accepts only when all four naturality equalities (segment sizes included) are "
+                  "entailed and names the failed one (REJ per error variant); is_convex_subgraph returns (no panic) for "
+                  "every validated arrow, loop included, answers true only on paths that established injectivity of BOTH "
+                  "maps, never abandons an outside path that still has successors (step condition of the search loop), and "
+                  "builds its adjacencies with source incidence first and target incidence second (callee-level role spec)",
         "entries": ["strict::hypergraph::arrow::"],
         "anchors": ["strict::hypergraph::arrow::HypergraphArrow::<K, O, A>::validate",
                     "strict::hypergraph::arrow::HypergraphArrow::<K, O, A>::is_monomorphism",
@@ -208,9 +221,12 @@ PROPS.update({
         "rules": ["DELETE", "SERDE", "DELEG"], "level": "proof",
     },
     "C13": {
-        "clause": "NARROW: both native lax functor entry points return None for diagrams with pending unifications; "
-                  "failures inside are propagated as None (no panic path); the witness is a well-formed segmented array "
-                  "with one segment per input node, over the result's nodes",
+        "clause": "NARROW: both native lax functor entry points return None for diagrams with pending unifications and "
+                  "are total on quotient-free ones (REJ under the functor's typing contract); failures inside are "
+                  "propagated as None (no panic path); the witness is a well-formed segmented array with one segment per "
+                  "input node, of |F(label)| entries each, over the result's nodes, and the output nodes it selects carry "
+                  "the labels F(label) in order (never nodes of the operation images); every hyperedge is replaced by the "
+                  "image of its operation (accumulation step)",
         "entries": ["lax::functor::traits::"],
         "anchors": ["lax::functor::traits::try_define_map_arrow", "lax::functor::traits::map_arrow_witness"],
         "rules": [], "level": "proof",
